@@ -31,14 +31,21 @@ ACTIONS = ["AGrow", "AStart", "ABegin", "ABegin2", "AEnter", "ACharText", "AExit
 TEXTK = '{"page", "textboxh", "textboxv", "textline", "char", "anno", "layout", "textgroup", "boxref"}'
 FIGK = '{"page", "figure", "image", "char", "line", "rect", "curve", "textboxh", "textline"}'
 STRK = '{"page", "figure", "image", "char"}'
-# (label, Kinds, MaxNodes, Strings)
+SINKK = '{"page", "figure", "char"}'
+# (label, Kinds, MaxNodes, Strings); the "sinks" config carries the shifting / escaping codecs as well
 CONFIGS = {
     "quick": [("shapes-all", "AllKinds", 4, "Palette2"), ("shapes-text", TEXTK, 6, "Palette1"),
-              ("shapes-figure", FIGK, 4, "Palette1"), ("strings", STRK, 3, "Str2")],
+              ("shapes-figure", FIGK, 4, "Palette1"), ("strings", STRK, 3, "Str2"), ("sinks", SINKK, 3, "StrSinks2")],
     "thorough": [("shapes-all", "AllKinds", 5, "Palette2"), ("shapes-text", TEXTK, 7, "Palette1"),
-                 ("shapes-figure", FIGK, 5, "Palette2"), ("strings", STRK, 3, "Str3"), ("shapes-all6", "AllKinds", 6, "Palette1")],
+                 ("shapes-figure", FIGK, 5, "Palette2"), ("strings", STRK, 3, "Str3"), ("shapes-all6", "AllKinds", 6, "Palette1"),
+                 ("sinks", STRK, 3, "StrSinks3")],
 }
 CODECS = [(C.K_UTF8, "utf-8", "u8"), (C.K_UTF16, "utf-16", "u16"), (C.K_LATIN1, "latin-1", "l1")]
+# further members of the codec classes of ConvOps.tla: ASCII-escaping / shifting (modelled: u7, hz, jp), and class-mates of the
+# transparent and signature classes.  For these the oracle for the bytes is the standard incremental encoder of the codec
+# applied to the model's sequence of writes; the property is decode(bytes, codec) = the characters of the text sink.
+SHIFT_CODECS = [(C.K_UTF7, "utf-7", "u7"), (C.K_HZ, "hz", "hz"), (C.K_ISO2022, "iso2022_jp", "jp")]
+MORE_CODECS = ["utf-7", "hz", "iso2022_jp", "cp1252", "utf-32", "utf-8-sig"]
 XML_DECL = '<?xml version="1.0" ?>'
 # the XML reader of ConvOps.tla recurses once per character of output: give TLC's worker threads a deep Java stack
 JVM = {"JAVA_TOOL_OPTIONS": "-Xss64m"}
@@ -156,6 +163,27 @@ class Judge:
         return False
 
 
+def extra_sink(ck, judge, conv, codec, real_b, text_chars, ref_b, rp, what):
+    """a binary sink with a further codec: decode(bytes, codec) must be the characters the text sink received"""
+    want = text_chars
+    if conv == "xml":
+        want = text_chars.replace(XML_DECL, '<?xml version="1.0" encoding="%s" ?>' % codec, 1)
+    try:
+        got = real_b.decode(codec)
+    except UnicodeDecodeError as e:
+        got = "<undecodable: %s>" % e
+    if got == want:
+        if ref_b is not None and real_b != ref_b:
+            judge.drift += 1
+            if judge.drift <= 3:
+                ck.note("drift: %s bytes of %s (codec %s) differ from the standard incremental encoder's but decode to the same characters"
+                        % (conv, what, codec))
+        return True
+    ck.violation("sink:%s:%s" % (conv, codec), "%s output of %s on a binary sink with codec %s decodes to %r, a text sink receives %r"
+                 % (conv, what, codec, got[:80], want[:80]), dict(rp, codec=codec, observed=real_b[:2000], expected=want[:2000]))
+    return False
+
+
 # ------------------------------------------------------------------------------------------------ A1: TLC trees, direct realisation
 def check_reference(rec):
     """the Python transcription of ConvOps.tla must reproduce TLC's own output (else the oracle is broken: exit 2)"""
@@ -165,6 +193,10 @@ def check_reference(rec):
     for e, _, fld in CODECS:
         if [c + 1000 * k for (c, k) in C.model_units(T, conv, strip, imgw, dev, e)] != rec[fld]:
             raise MachineryError("reference transcription disagrees with TLC on %s for %s" % (fld, json.dumps(rec)[:600]))
+    if rec["u7"] or rec["hz"] or rec["jp"]:
+        for e, _, fld in SHIFT_CODECS:
+            if C.model_units_shift(T, conv, strip, imgw, dev, e) != rec[fld]:
+                raise MachineryError("reference transcription disagrees with TLC on %s for %s" % (fld, json.dumps(rec)[:600]))
     if not dev:
         if conv == "text" and C.tree_text(T) != rec["chars"]:
             raise MachineryError("TreeText transcription disagrees with TLC")
@@ -174,7 +206,7 @@ def check_reference(rec):
                 raise MachineryError("TreeEvents transcription disagrees with TLC: %r vs %r" % (mine[:6], rec["ev"][:6]))
 
 
-def replay_tree(ck, judge, T, conv, strip, imgw, rep, label, sample=False):
+def replay_tree(ck, judge, T, conv, strip, imgw, rep, label, sample=False, more_codecs=False):
     con = C.Concrete(rep)
     pages, nums = C.build_direct(T, con)
     con.nums = nums
@@ -210,6 +242,19 @@ def replay_tree(ck, judge, T, conv, strip, imgw, rep, label, sample=False):
         nbin += 1
         judge.binary_sink(conv, codec, real_b, real_s, lambda d, e=e: con.units(C.model_units(T, conv, strip, imgw, d, e)),
                           dict(rp, codec=codec), what)
+    if more_codecs:
+        for codec in MORE_CODECS:
+            if not encodable(real_s, codec):
+                continue
+            con.codec = codec
+            try:
+                real_b = C.run_converter(pages, conv, "bin", codec, strip, imgw)
+            except Exception as ex:  # noqa: BLE001
+                ck.violation("exception:" + type(ex).__name__, "%s converter raised %r on %s (binary sink, %s)" % (conv, ex, what, codec), rp)
+                continue
+            nbin += 1
+            extra_sink(ck, judge, conv, codec, real_b, real_s,
+                       C.reference_bytes(T, conv, strip, imgw, con, codec, "ignore" if conv == "text" else "strict"), rp, what)
     hostile = any(c != C.PLAIN for n in T for c in list(n["s"]) + list(n["f"]) if n["k"] in ("char", "figure", "image"))
     ck.case(1 + nbin, (json.dumps(T, sort_keys=True), conv, strip, imgw) if (hostile or len(T) > 2) else None)
     if sample:
@@ -230,7 +275,8 @@ def direction_a_model(ck, dev, judge):
             f.write("---- MODULE %s ----\nEXTENDS MC_Converters\nTheKinds == %s\nTheDevs == %s\nPalette1 == {<<cLT, cAMP, cQUOT>>}\n====\n"
                     % (mod, kinds, devs))
         cfg = write_cfg(os.path.join(ck.tmp, mod + ".cfg"),
-                        constants={"MaxNodes": maxn, "Strings": "<- " + strings, "Kinds": "<- TheKinds", "DevChoices": "<- TheDevs"},
+                        constants={"MaxNodes": maxn, "Strings": "<- " + strings, "Kinds": "<- TheKinds", "DevChoices": "<- TheDevs",
+                                   "ShiftSinks": "TRUE" if label == "sinks" else "FALSE"},
                         invariants=["TextIsTreeText", "XMLWellFormed", "XMLParsesBackToTree", "SinkIndependent", "StackIsPath"],
                         constraints=["EmitTerminal"])
         emit = os.path.join(ck.tmp, mod + ".ndjson")
@@ -249,7 +295,9 @@ def direction_a_model(ck, dev, judge):
                 n += 1
                 if rec["dev"]:
                     continue            # as-coded outputs are recomputed by the (now validated) transcription
-                replay_tree(ck, judge, rec["T"], rec["conv"], rec["strip"], rec["imgw"], n, label, sample=(n % 9973 == 1))
+                # the sinks config is realised with the representative set that has a CJK ideograph (hz / iso2022_jp can carry it)
+                replay_tree(ck, judge, rec["T"], rec["conv"], rec["strip"], rec["imgw"], 1 if label == "sinks" else n, label,
+                            sample=(n % 9973 == 1), more_codecs=(label == "sinks"))
                 ck.replayed += 1
         os.remove(emit)
         if n != res.emitted or n == 0:
@@ -264,7 +312,8 @@ def teeth(ck):
     (thorough tier; the quick tier checks the same on the validated transcription: see teeth_quick)"""
     if ck.tier == "quick":
         return teeth_quick(ck)
-    pairs = [("FigureNameRaw", "P_XMLWellFormed"), ("TextSinkUtf8", "P_SinkIndependent"), ("BomPerWrite", "P_XMLWellFormed")]
+    pairs = [("FigureNameRaw", "P_XMLWellFormed"), ("TextSinkUtf8", "P_SinkIndependent"), ("BomPerWrite", "P_XMLWellFormed"),
+             ("AsciiBypass", "P_SinkIndependent")]
     if ck.tier == "thorough":
         pairs += [("BomPerWrite", "P_SinkIndependent"), ("FigureNameRaw", "P_XMLParsesBackToTree")]
     found = {}
@@ -274,7 +323,8 @@ def teeth(ck):
         with open(wrapper, "w") as f:
             f.write('---- MODULE %s ----\nEXTENDS MC_Converters\nTheDevs == {{"%s"}}\nTheKinds == {"page", "figure", "char"}\n====\n' % (mod, d))
         cfg = write_cfg(os.path.join(ck.tmp, mod + ".cfg"),
-                        constants={"MaxNodes": 3, "Strings": "<- Palette2", "Kinds": "<- TheKinds", "DevChoices": "<- TheDevs"},
+                        constants={"MaxNodes": 3, "Strings": "<- " + ("StrSinks2" if d == "AsciiBypass" else "Palette2"), "Kinds": "<- TheKinds",
+                                   "DevChoices": "<- TheDevs", "ShiftSinks": "TRUE" if d == "AsciiBypass" else "FALSE"},
                         invariants=[inv])
         res = run_tlc(wrapper, cfg, workers=2, timeout=600, lib=os.path.join(SPECS, "conv"), env=JVM)
         ck.add_tlc(res, "counterexample search: %s alone against %s" % (d, inv))
@@ -293,6 +343,9 @@ def teeth_quick(ck):
     for d, conv, e in (("TextSinkUtf8", "text", C.K_LATIN1), ("BomPerWrite", "xml", C.K_UTF16)):
         if C.model_units(T, conv, False, False, {d}, e) == C.model_units(T, conv, False, False, set(), e):
             raise MachineryError("vacuous: %s changes nothing in the model" % d)
+    for e in (C.K_UTF7, C.K_HZ, C.K_ISO2022):
+        if C.model_units_shift(T, "xml", False, False, {"AsciiBypass"}, e) == C.model_units_shift(T, "xml", False, False, set(), e):
+            raise MachineryError("vacuous: AsciiBypass changes nothing for codec %d in the model" % e)
 
 
 # ------------------------------------------------------------------------------------------------ A2: generated PDFs
@@ -313,6 +366,8 @@ def hostile_strings(tier, rng):
     for n, c in enumerate(combos):
         r = reps[n % len(reps)]
         out.append("".join(C.SINGLE.get(k) or r[k] for k in c))
+    # the sink dimension: ASCII characters escaping codecs rewrite, a subset-tagged font name, a CJK run followed by ASCII
+    out += ["1+1", "a~b", "ABCDEF+Name", "中a", "+中~", "中文+a~"]
     return out
 
 
@@ -324,7 +379,7 @@ def run_high_level(data, conv, sink, codec, la, strip):
     return fp.getvalue()
 
 
-def judge_document(ck, judge, data, lakey, what, rp0, convs=("text", "xml"), sinks=True):
+def judge_document(ck, judge, data, lakey, what, rp0, convs=("text", "xml"), sinks=True, more_codecs=False):
     """extract_text_to_fp over `data` against the model serialiser applied to the hierarchy of the same bytes"""
     la = C.LAPARAMS[lakey]()
     pages = C.pages_of(data, C.LAPARAMS[lakey]())
@@ -368,6 +423,16 @@ def judge_document(ck, judge, data, lakey, what, rp0, convs=("text", "xml"), sin
                 n += 1
                 judge.binary_sink(conv, codec, real_b, real_s,
                                   lambda d, e=e: txt.units(C.model_units(Tm, conv, strip, False, d, e)), dict(rp, codec=codec), what)
+            for codec in (MORE_CODECS if more_codecs else ()):
+                if not encodable(real_s, codec):
+                    continue
+                try:
+                    real_b = run_high_level(data, conv, "bin", codec, la, strip)
+                except Exception as ex:  # noqa: BLE001
+                    ck.violation("exception:" + type(ex).__name__, "extract_text_to_fp(%s, codec=%s) raised %r on %s" % (conv, codec, ex, what), rp)
+                    continue
+                n += 1
+                extra_sink(ck, judge, conv, codec, real_b, real_s, None, rp, what)
     return n, Tp
 
 
@@ -384,7 +449,7 @@ def direction_a_pdf(ck, dev, judge):
         docs += 1
         for lk in lakeys:
             n, Tp = judge_document(ck, judge, data, lk, "generated document with hostile strings %r.." % (part[0],),
-                                   {"strings": part, "pdf": data})
+                                   {"strings": part, "pdf": data}, more_codecs=(lk == "default"))
             # realiser self-check: every hostile string arrived as glyph text, font name and figure name
             got = {(x["k"], x["s"]) for x in Tp} | {("font", x["f"]) for x in Tp if x["k"] == "char"}
             for S in part:
